@@ -29,8 +29,10 @@ def kind_sort(kind):
         return z3.StringSort()   # companion array <field>$none : Bool
     if kind == "map[str,ref]":
         return z3.ArraySort(z3.StringSort(), z3.IntSort())       # NULL == absent
-    if kind == "set[ref]":
+    if kind in ("set[ref]", "set[key]"):
         return z3.ArraySort(z3.IntSort(), z3.BoolSort())
+    if kind == "map[key,ref]":
+        return z3.ArraySort(z3.IntSort(), z3.IntSort())
     if kind == "set[pref]":                                        # set of PortRef, keyed (inst, portname)
         return z3.ArraySort(z3.IntSort(), z3.StringSort(), z3.BoolSort())
     if kind == "seq[ref]":
@@ -43,8 +45,10 @@ def kind_sort(kind):
 def empty_container(kind):
     if kind == "map[str,ref]":
         return z3.K(z3.StringSort(), NULL)
-    if kind == "set[ref]":
+    if kind in ("set[ref]", "set[key]"):
         return z3.K(z3.IntSort(), z3.BoolVal(False))
+    if kind == "map[key,ref]":
+        return z3.K(z3.IntSort(), NULL)
     if kind == "set[pref]":
         return z3.Lambda([z3.Int("i!e"), z3.String("p!e")], z3.BoolVal(False))
     if kind == "seq[ref]":
@@ -54,7 +58,7 @@ def empty_container(kind):
     raise KeyError(kind)
 
 
-CONTAINER_KINDS = ("map[str,ref]", "set[ref]", "set[pref]", "seq[ref]", "seq[str]")
+CONTAINER_KINDS = ("map[str,ref]", "set[ref]", "set[pref]", "seq[ref]", "seq[str]", "set[key]", "map[key,ref]")
 
 
 class Heap:
@@ -71,7 +75,7 @@ class Heap:
     def kind(self, field):
         if field.endswith("$none"):
             return "bool"
-        if field == "$alive":
+        if field in ("$alive", "$broken"):
             return "bool"
         if field == "$cls":
             return "int"
